@@ -112,3 +112,23 @@ Proof.
   intros Hl. unfold spec_loose_full. destruct (h <=? enum_max)%nat; [|reflexivity].
   now rewrite enum_rank_full_rank.
 Qed.
+
+(** * IndexToPath enumerates the path words of the full tree, in pre-order *)
+Lemma all_nodes_enum h :
+  all_nodes h = map (fun i => node_at h (Z.of_nat i)) (seq 0 (length (all_nodes h))).
+Proof.
+  pose proof (all_nodes_length h) as HL.
+  apply (nth_ext _ _ [] (node_at h (Z.of_nat 0))).
+  - now rewrite map_length, seq_length.
+  - intros n Hn. rewrite (map_nth (fun i => node_at h (Z.of_nat i))), seq_nth by exact Hn. cbn [plus].
+    rewrite <- nth_all_nodes by (unfold node in *; lia). now rewrite Nat2Z.id.
+Qed.
+
+Lemma IndexToPath_enumerates h : (h <= 30)%nat ->
+  map (fun i => IndexToPath (Z.of_nat h) (Z.of_nat i)) (seq 0 (length (all_nodes h)))
+  = map (fun q => Some (enc h q)) (all_nodes h).
+Proof.
+  intros Hh. rewrite (all_nodes_enum h) at 2. rewrite map_map. apply map_ext_in.
+  intros i Hi. apply in_seq in Hi. pose proof (all_nodes_length h) as HL.
+  apply IndexToPath_node_at; [exact Hh|]. unfold node in *. lia.
+Qed.
